@@ -64,20 +64,15 @@ AtNo(S, n) == CHOOSE x \in S : No(x) = n
 Act(n, b) == lastAct' = [name |-> n, blk |-> b]
 
 \* ---------------------------------------------------------------- connecting a block that extends the best block
-StartConnect(b) ==
+\* The first durable write of connecting block b (which extends the best block): the state DB bulk of the block
+\* (trie nodes, states, marker of the root) is flushed.  Nothing durable happens before it.
+StateCommit(b) ==
   /\ up /\ op = Idle /\ b \notin dStore /\ b # G /\ Parent[b] = mBest /\ mRoot = mBest
-  /\ op' = [kind |-> "connect", b |-> b, pc |-> "state"]
+  /\ dState' = dState \cup {b} /\ mRoot' = b
+  /\ op' = [kind |-> "connect", b |-> b, pc |-> IF Txs[b] = {} THEN "tip" ELSE "rcpt"]
   /\ tips' = tips \cup {b}
-  /\ Act("StartConnect", b)
-  /\ UNCHANGED <<dStore, dHidx, dLatest, dTx, dRcpt, dState, dMarker, up, mBest, mRoot>>
-
-\* the state DB bulk of the block (trie nodes, states, marker of the root) is flushed
-StateCommit ==
-  /\ up /\ op.kind = "connect" /\ op.pc = "state"
-  /\ dState' = dState \cup {op.b} /\ mRoot' = op.b
-  /\ op' = [op EXCEPT !.pc = IF Txs[op.b] = {} THEN "tip" ELSE "rcpt"]
-  /\ Act("StateCommit", op.b)
-  /\ UNCHANGED <<dStore, dHidx, dLatest, dTx, dRcpt, dMarker, up, mBest, tips>>
+  /\ Act("StateCommit", b)
+  /\ UNCHANGED <<dStore, dHidx, dLatest, dTx, dRcpt, dMarker, up, mBest>>
 
 WriteReceipts ==
   /\ up /\ op.kind = "connect" /\ op.pc = "rcpt"
@@ -143,16 +138,16 @@ MarkerWrite ==
 DelOldReceipts ==
   /\ up /\ op.kind = "reorg" /\ op.pc = "delrcpt"
   /\ dRcpt' = dRcpt \ OldOf(op.root, op.best)
-  /\ op' = [op EXCEPT !.pc = "addtx", !.i = No(op.top)]
+  /\ op' = [op EXCEPT !.pc = "addtx", !.i = No(op.root) + 1]
   /\ Act("DelOldReceipts", op.top)
   /\ UNCHANGED <<dStore, dHidx, dLatest, dTx, dState, dMarker, up, mBest, mRoot, tips>>
 
-\* tx index of the new blocks, one transaction per block, from the top down
+\* tx index of the new blocks, one transaction per block, from the branch root up to the top
 AddNewTxs ==
   /\ up /\ op.kind = "reorg" /\ op.pc = "addtx"
   /\ LET b == AtNo(NewOf(op.root, op.top), op.i) IN
        /\ dTx' = [t \in AllTx |-> IF t \in Txs[b] THEN b ELSE dTx[t]]
-       /\ op' = IF op.i = No(op.root) + 1 THEN [op EXCEPT !.pc = "deltx"] ELSE [op EXCEPT !.i = @ - 1]
+       /\ op' = IF op.i = No(op.top) THEN [op EXCEPT !.pc = "deltx"] ELSE [op EXCEPT !.i = @ + 1]
        /\ Act("AddNewTxs", b)
   /\ UNCHANGED <<dStore, dHidx, dLatest, dRcpt, dState, dMarker, up, mBest, mRoot, tips>>
 
@@ -228,8 +223,8 @@ Init ==
   /\ up = TRUE /\ mBest = G /\ mRoot = G /\ op = Idle /\ tips = {G}
   /\ lastAct = [name |-> "Init", blk |-> G]
 
-Next == (\E b \in Blocks : StartConnect(b) \/ StoreSide(b))
-        \/ StateCommit \/ WriteReceipts \/ ConnectTx
+Next == (\E b \in Blocks : StateCommit(b) \/ StoreSide(b))
+        \/ WriteReceipts \/ ConnectTx
         \/ RollForward \/ RollForwardReceipts \/ MarkerWrite \/ DelOldReceipts \/ AddNewTxs \/ DelOldTxs \/ SwapIdx \/ MarkerDelete
         \/ Crash \/ RecoverMapping \/ RecoverDone \/ RecoverReorg
 
